@@ -2,9 +2,9 @@
 from engine.h4v import H, libhdf_units
 
 META = dict(
-    bounds=["K2: Vgroup member count at 0, 1, 65534, 65535 (tag/ref symbolic)", "K1: full int32 range for end-of-file offset, block size, element length and seek position; transfers 1..4 bytes"],
+    bounds=["K3: Vdata record size: two user-defined uint8 fields with symbolic orders 1..65535, VSsetfields of one or both", "K2: Vgroup member count at 0, 1, 65534, 65535 (tag/ref symbolic)", "K1: full int32 range for end-of-file offset, block size, element length and seek position; transfers 1..4 bytes"],
     stubs=["stdio = models/memio.c with a sparse tail (bytes beyond the model disk are not stored)", "error stack = codes only", "malloc never fails"],
-    outside=["65536 references per tag as a history", "257 fields at scenario level"],
+    outside=["65536 references per tag as a history", "257 fields at scenario level", "field sizes other than 1 byte in K3"],
     manifest=dict(
         level="Bounded model checking (CBMC/SAT) of the real libhdf with full-width symbolic integers: end-of-file offset, reservation sizes, element lengths and "
               "seek positions range over all int32 values from states reachable by reserved (never written) elements; the solver decides that each request either "
@@ -22,4 +22,12 @@ def plan(ctx, tier, seed):
     for n0 in (0, 1, 65534, 65535):
         hs.append(H("C20.K2.members.n%d" % n0, "C20", src="harness/C20/k2_counts.c", units=libhdf_units(), models=["memio", "herr", "memloops", "printf"], defs={"N0": n0, "MSIZE": 65600},
                     unwind=4, kind="K", timeout=600, field_sens=16, symbolic="tag, ref", bound="member count %d (limits enumerated)" % n0, group="C20.K2"))
+    for nf, fields in ((2, "fa,fb"), (1, "fa")):
+        hs.append(H("C20.K3.recsize.f%d" % nf, "C20", src="harness/C20/k3_recsize.c", units=libhdf_units(), models=["memio", "herr", "memloops", "printf"],
+                    defs={"NF": nf, "MEMIO_DISK_SZ": 2048}, unwind=5000, kind="K", timeout=900,
+                    symbolic="orders n1, n2 of two uint8 fields over 1..65535", bound="two user-defined fields; field list enumerated", group="C20.K3"))
+    for a, b in ((32768, 32768), (65535, 1), (65534, 1), (40000, 40000)):
+        hs.append(H("C20.K3.recsize.usable.%d_%d" % (a, b), "C20", src="harness/C20/k3_recsize.c", units=libhdf_units(), models=["memio", "herr", "memloops", "printf"],
+                    defs={"NF": 2, "MEMIO_DISK_SZ": 2048, "N1C": a, "N2C": b}, unwind=5000, kind="K", timeout=900,
+                    symbolic="-", bound="concrete boundary pair of orders; library usable after the refusal", group="C20.K3"))
     return hs
